@@ -195,6 +195,18 @@ def check(ctx, case):
     sub = report.submission
     n_sections = len(chunks)
     defined_earlier = []          # functions that a run() of an earlier section left in the sandbox
+    organised = []                # (section, its text, what the organised check declared there saw when it finally ran)
+
+    def organised_checks_saw_their_section():
+        for sec, want_text, saw in organised:
+            for seen_text, seen_offsets in saw:
+                ctx.count('organised_checks_run_at_the_section_change')
+                if seen_text != want_text:
+                    ctx.violation('C17|organised-check-sees-other-code-than-its-section|%s' % key_mode, dict(case, upto=sec),
+                                  'declared while section %d was active; when it ran the main code was %r' % (sec, seen_text[-120:]))
+                    return False
+        del organised[:]
+        return True
     for k in range(n_sections + h['past']):
         if k > 0:
             n_before = len(report.feedback) + len(report.ignored_feedback)
@@ -203,6 +215,8 @@ def check(ctx, case):
             except Exception as e:
                 fam = 'past-the-end' if k >= n_sections else 'in-range'
                 ctx.violation('C17|next_section-raised|%s|%s' % (type(e).__name__, fam), dict(case, upto=k), traceback.format_exc()[-500:])
+                return
+            if not organised_checks_saw_their_section():
                 return
             if k >= n_sections:
                 ctx.count('past_the_end_requests')
@@ -214,6 +228,16 @@ def check(ctx, case):
         # ---- what the tools are shown ------------------------------------------------------------------
         want_code = chunks[k] if independent else ''.join(want_sections[:2 * k + 1])
         ctx.count('sections_presented')
+        if h.get('before') == 'assertion-before-separating' and k < n_sections:
+            # a check organised as a phase, declared for THIS section: the assertion tool runs it when the grader moves on
+            from pedal.assertions.organizers import phase
+            saw = []
+
+            @phase('about_section_%d' % k)
+            def about_this_section(saw=saw):
+                saw.append((report.submission.main_code, dict(report.submission.line_offsets)))
+                return True
+            organised.append((k, want_code, saw))
         if sub.main_code != want_code:
             ctx.violation('C17|section-code-differs|%s' % key_mode, dict(case, upto=k), {'want': want_code[-200:], 'got': sub.main_code[-200:]})
             return
